@@ -323,6 +323,8 @@ var ruleSets = []map[string]string{
 	{"OrderNo": "required", "TradeNo": "required,le=0"},
 	// 7: built with RM.Set("Name,Code", rules...) from a slice the caller keeps (several field names, several rules, an empty rule)
 	{"Name": "required,,le=2", "Code": "required,,le=2"},
+	// 8: a literal RM{"Name,Age": ..., "Code, Phone": ..., "Count": ...} (see mkRule)
+	{"Count": "ge=7"},
 }
 
 // multiSetRules is the slice handed (spread) to RM.Set for rule set 7; the caller keeps it.
@@ -334,6 +336,10 @@ func mkRule(id int) valid.RM {
 	}
 	if id == 7 {
 		return valid.NewRule().Set("Name,Code", multiSetRules()...)
+	}
+	if id == 8 {
+		// written as a literal, not through Set: keys that list several fields are just keys nobody asks for
+		return valid.RM{"Name,Age": "required", "Code, Phone": "le=1", "Count": "ge=7"}
 	}
 	rm := valid.NewRule()
 	// fixed key order: RM.Set has no order dependence, this is for determinism of allocation only
@@ -387,6 +393,8 @@ func mkFns(id int) valid.Name2FnMap {
 		return valid.Name2FnMap{"required": oddFn("call3")} // replaces a built-in for this call only
 	case 4:
 		return valid.Name2FnMap{"odd": bareOddFn} // reports through GetJoinValidErrStr WITHOUT trailing texts
+	case 5:
+		return valid.Name2FnMap{"odd": panicOddFn} // user code that panics half-way through a validation
 	}
 	return nil
 }
@@ -397,7 +405,14 @@ func bareOddFn(errBuf *strings.Builder, validName, objName, fieldName string, tv
 	}
 }
 
-const NFnSets = 5
+func panicOddFn(errBuf *strings.Builder, validName, objName, fieldName string, tv reflect.Value) {
+	if tv.Kind() == reflect.String && len(tv.String())%2 == 0 {
+		errBuf.WriteString("half a message for " + fieldName)
+		panic("custom rule " + validName + " refuses " + objName + "." + fieldName)
+	}
+}
+
+const NFnSets = 6
 
 var globalsDone bool
 
